@@ -19,6 +19,12 @@ func verifPoint(point string, ref interface{}) {
 func (root *Root) VerifSubscribers() []Subscriber {
 	root.subLock.Lock()
 	defer root.subLock.Unlock()
+	return root.VerifSubscribersLocked()
+}
+
+// VerifSubscribersLocked is VerifSubscribers for callers that are inside a
+// registry critical section already (the in-lock verification points).
+func (root *Root) VerifSubscribersLocked() []Subscriber {
 	subs := make([]Subscriber, 0, len(root.subscriptions))
 	for _, s := range root.subscriptions {
 		subs = append(subs, s.sub)
